@@ -213,6 +213,13 @@ Lemma expected_cons : forall e l q,
   expected (e :: l) q = (if sig_entry_for q e then [item_of e] else []) ++ expected l q.
 Proof. intros. unfold expected; cbn. destruct (sig_entry_for q e); reflexivity. Qed.
 
+Lemma ocaps : ocapM = capM /\ ocapB = capB.
+Proof. split; reflexivity. Qed.
+
+Lemma oversize_ref_cap : forall q e,
+  oversize_ref q e = is_sigmt (d_mt (e_d e)) && refers q e && (capM <? d_sz (e_d e))%Z.
+Proof. intros. unfold oversize_ref. now rewrite (proj1 ocaps). Qed.
+
 Lemma list_loop_spec : forall st q, Inv st -> forall l, incl l st ->
   fst (list_loop st q (map e_d (filter (refers q) l))) =
   if existsb (oversize_ref q) l then LErr 1 else LOk (expected l q).
@@ -224,7 +231,7 @@ Proof.
   assert (Hok : entry_ok e) by (destruct I as [_ FA]; rewrite Forall_forall in FA; auto).
   destruct (refers q e) eqn:Hr.
   - cbn [map list_loop]. rewrite (visit_entry st q e I Hin Hr).
-    unfold oversize_ref at 1. rewrite Hr.
+    rewrite oversize_ref_cap. rewrite Hr.
     destruct (is_sigmt (d_mt (e_d e))) eqn:Hm; cbn [andb orb].
     + destruct (capM <? d_sz (e_d e))%Z eqn:Hc; cbn [andb orb]; [reflexivity|].
       destruct (sig_entry_for q e) eqn:Hs.
@@ -239,7 +246,7 @@ Proof.
       destruct (existsb (oversize_ref q) l); reflexivity.
   - assert (Hs : sig_entry_for q e = false).
     { destruct (sig_entry_for q e) eqn:Hs; auto. rewrite (sig_entry_refers q e Hok Hs) in Hr. discriminate. }
-    rewrite Hs. unfold oversize_ref at 1. rewrite Hr, andb_false_r. cbn [andb orb app]. exact IH.
+    rewrite Hs. rewrite oversize_ref_cap. rewrite Hr, andb_false_r. cbn [andb orb app]. exact IH.
 Qed.
 
 (* every digest handed to Fetch by a listing is that of a stored manifest
@@ -283,7 +290,7 @@ Lemma log_ok_of : forall st lg, Inv st ->
 Proof.
   intros st lg [ND _] H. unfold log_ok. apply forallb_forall. intros g Hg.
   rewrite Forall_forall in H. destruct (H g Hg) as (e & Hi & He & Hs). subst g.
-  rewrite (lookup_in st e ND Hi). now apply Z.leb_le.
+  rewrite (lookup_in st e ND Hi). rewrite (proj1 ocaps). now apply Z.leb_le.
 Qed.
 
 Lemma cfg_push : forall st, lookup_dg st DG_EMPTY = None ->
@@ -438,16 +445,34 @@ Local Arguments N.eqb : simpl never.
 Lemma fetch_sim : forall st d, rcheck st (OpFetch d) (snd (step st (OpFetch d))) = true.
 Proof.
   intros st d. cbn [step]. unfold fetch_sig.
-  destruct (is_sigmt (d_mt d)) eqn:M; cbn [negb]; [|cbn; now rewrite M].
-  destruct (capM <? d_sz d)%Z eqn:Cm; [cbn; now rewrite M, Cm|].
-  destruct (fetch_all st d) as [c|] eqn:F; [|cbn; rewrite M, Cm, F; cbn; now rewrite N.eqb_refl].
-  destruct (parsed (d_mt d) c) eqn:Pc; cbn [negb]; [|cbn; rewrite M, Cm, F, Pc; cbn; now rewrite N.eqb_refl].
+  assert (R : forall e b bd lg, rcheck st (OpFetch d) (RFetch e b bd lg) =
+     if negb (is_sigmt (d_mt d)) || (capM <? d_sz d)%Z then negb (e =? 0) && list_eqb N.eqb lg []
+     else match fetch_all st d with
+          | None => negb (e =? 0) && list_eqb N.eqb lg [d_dg d]
+          | Some c =>
+              if negb (parsed (d_mt d) c) then negb (e =? 0) && list_eqb N.eqb lg [d_dg d]
+              else match blobs_of (d_mt d) c with
+                   | [x] =>
+                       if (capB <? d_sz x)%Z then negb (e =? 0) && list_eqb N.eqb lg [d_dg d]
+                       else match fetch_all st x with
+                            | None => negb (e =? 0) && list_eqb N.eqb lg [d_dg d; d_dg x]
+                            | Some _ => (e =? 0) && (b =? d_dg x) && desc_eqb bd x &&
+                                        list_eqb N.eqb lg [d_dg d; d_dg x]
+                            end
+                   | _ => negb (e =? 0) && list_eqb N.eqb lg [d_dg d]
+                   end
+          end).
+  { intros. unfold rcheck. now rewrite (proj1 ocaps), (proj2 ocaps). }
+  destruct (is_sigmt (d_mt d)) eqn:M; cbn [negb]; [|cbn [snd]; rewrite R; rewrite ?M; reflexivity].
+  destruct (capM <? d_sz d)%Z eqn:Cm; [cbn [snd]; rewrite R; rewrite ?M, ?Cm; reflexivity|].
+  destruct (fetch_all st d) as [c|] eqn:F; [|cbn [snd]; rewrite R; rewrite ?M, ?Cm, ?F; cbn; now rewrite N.eqb_refl].
+  destruct (parsed (d_mt d) c) eqn:Pc; cbn [negb]; [|cbn [snd]; rewrite R; rewrite ?M, ?Cm, ?F, ?Pc; cbn; now rewrite N.eqb_refl].
   destruct (blobs_of (d_mt d) c) as [|b [|b2 bs]] eqn:Bl.
-  - cbn. rewrite M, Cm, F, Pc, Bl. cbn. now rewrite N.eqb_refl.
-  - destruct (capB <? d_sz b)%Z eqn:Cb; [cbn; rewrite M, Cm, F, Pc, Bl, Cb; cbn; now rewrite N.eqb_refl|].
-    destruct (fetch_all st b) as [cb|] eqn:Fb; cbn; rewrite M, Cm, F, Pc, Bl, Cb, Fb; cbn;
+  - cbn [snd]. rewrite R; rewrite ?M, ?Cm, ?F, ?Pc, ?Bl. cbn. now rewrite N.eqb_refl.
+  - destruct (capB <? d_sz b)%Z eqn:Cb; [cbn [snd]; rewrite R; rewrite ?M, ?Cm, ?F, ?Pc, ?Bl, ?Cb; cbn; now rewrite N.eqb_refl|].
+    destruct (fetch_all st b) as [cb|] eqn:Fb; cbn [snd]; rewrite R; rewrite ?M, ?Cm, ?F, ?Pc, ?Bl, ?Cb, ?Fb; cbn;
       rewrite ?N.eqb_refl, ?desc_eqb_refl; reflexivity.
-  - cbn. rewrite M, Cm, F, Pc, Bl. cbn. now rewrite N.eqb_refl.
+  - cbn [snd]. rewrite R; rewrite ?M, ?Cm, ?F, ?Pc, ?Bl. cbn. now rewrite N.eqb_refl.
 Qed.
 
 Lemma step_sim : forall st o, Inv st -> wf_op o = true ->
@@ -684,7 +709,7 @@ Definition oversize_referrer (q : desc) (e : entry) : Prop :=
 
 Lemma oversize_ref_iff : forall q e, oversize_ref q e = true <-> oversize_referrer q e.
 Proof.
-  intros q e. unfold oversize_ref, oversize_referrer, refers. rewrite !andb_true_iff, Z.ltb_lt. split.
+  intros q e. rewrite oversize_ref_cap. unfold oversize_referrer, refers. rewrite !andb_true_iff, Z.ltb_lt. split.
   - intros [[Hm Hr] Hs]. apply sigmt_cases in Hm. split; [tauto|]. split; auto.
     destruct (e_succ e) as [ss|]; [|discriminate]. exists ss. split; auto.
     apply existsb_exists in Hr as (x & Hx & He). apply desc_eqb_eq in He. now subst.
